@@ -10,6 +10,7 @@ import (
 	"hash/crc32"
 	"strings"
 
+	"github.com/diskfs/go-diskfs/disk"
 	"github.com/diskfs/go-diskfs/partition"
 	"github.com/diskfs/go-diskfs/partition/gpt"
 	"github.com/diskfs/go-diskfs/partition/mbr"
@@ -163,6 +164,26 @@ type pairSpec struct {
 	oldMbr   []*mbr.Partition
 	base     []byte // random prior content of the whole (small) device, or nil
 	desc     string
+	// regime extensions (regimes.go); the zero value is the plain pair of before
+	baseExt  []piece                   // prior content given as pieces (big disks: inside the model's windows only)
+	win      [2]int64                  // model image windows (head bytes, tail bytes); 0,0 = flat image of the whole device
+	rawBuild func(d *memdev.Dev) error // oldKind "raw": builds the old state on the device (part of dev=)
+	pre      *preSpec                  // the old state is a crash state of an earlier interrupted Write of pre.table
+	rmw      bool                      // the new table is what gpt.Read returns on the old state, modified (read-modify-write)
+	rmwEdit  func(t *gpt.Table)        // the modification
+	nguid    bool                      // rmwEdit changed the disk GUID
+	repair   bool                      // Table.Repair(size) before the write
+	viaDisk  bool                      // write through disk.Disk.Partition instead of Table.Write
+	noRec    bool                      // foreign geometry: leave out the record-level classification
+	degraded bool                      // the old state may read from the backup only while new != pre.table: trigger of gpt-rewrite-over-degraded-primary (cleared when the old state reads from its primary)
+	finding  string                    // the pair lies on the trigger of this listed finding: no case/impl lines, failures explained by it carry its tag
+	okStages map[int]bool              // the synced writes during which that finding explains a state that reads as an error
+	regimes  []string                  // stat keys
+}
+
+type preSpec struct {
+	table gc.TableSpec
+	k, fi int
 }
 
 func tableArgs(pre string, t *gc.TableSpec) []string {
@@ -178,6 +199,9 @@ func Run(c *hx.Ctx) {
 	cfg, _ := gc.ProbeCfg()
 	c.Note("model cfg=%s", cfg)
 	firstWriteWitness(c)
+	grownDiskWitness(c)
+	degradedPrimaryWitness(c)
+	overlapWitness(c)
 	r := c.Rng.Fork()
 	n := c.N(36, 1500)
 	for i := 0; i < n; i++ {
@@ -235,8 +259,10 @@ func Run(c *hx.Ctx) {
 		if !c.Want(id) {
 			continue
 		}
+		p.regimes = plainRegimes(&p, how)
 		runPair(c, cfg, p)
 	}
+	regimeFamilies(c, cfg, c.Rng.Fork())
 }
 
 func runPair(c *hx.Ctx, cfg gc.Cfg, p pairSpec) {
@@ -249,6 +275,15 @@ func runPair(c *hx.Ctx, cfg gc.Cfg, p pairSpec) {
 	d1 := memdev.New(size)
 	if p.base != nil {
 		d1.RawWrite(p.base, 0)
+	}
+	for _, pc := range p.baseExt {
+		d1.RawWrite(pc.data, pc.off)
+	}
+	if p.rawBuild != nil {
+		if err := p.rawBuild(d1); err != nil {
+			c.Fail(p.id, "-", "cannot build the old state: "+err.Error(), p.desc)
+			return
+		}
 	}
 	baseStr := gc.DevStr(d1)
 	haveOld, haveMbr := false, false
@@ -277,17 +312,99 @@ func runPair(c *hx.Ctx, cfg gc.Cfg, p pairSpec) {
 			return
 		}
 		oldMbr, haveMbr = gc.MbrPartsStr(t.Partitions), true
+	case "raw":
+		t, err := gpt.Read(d1, lss, lss)
+		if err != nil {
+			c.Fail(p.id, "-", fmt.Sprintf("the hand-built old table does not read: %v", err), p.desc)
+			return
+		}
+		oldParts, haveOld = gc.LibPartsStr(t.Partitions), true
+	}
+	if p.pre != nil {
+		// an earlier Write of pre.table was cut at (k, subset fi): that crash state is the old disk
+		dp := d1.Clone()
+		dp.ResetLog()
+		if err := p.pre.table.ToTable().Write(dp, size); err != nil {
+			c.Fail(p.id, "-", "Write of the interrupted table failed: "+err.Error(), p.desc)
+			return
+		}
+		pg, _ := split(dp.Log, lss)
+		for gi := 0; gi < p.pre.k && gi < len(pg); gi++ {
+			for _, e := range pg[gi].writes {
+				d1.RawWrite(e.Data, e.Off)
+			}
+		}
+		if p.pre.k < len(pg) {
+			g := pg[p.pre.k]
+			fam := Family(len(g.pieces))
+			if p.pre.fi < len(fam) {
+				for i, pc := range g.pieces {
+					if fam[p.pre.fi](i) {
+						d1.RawWrite(pc.data, pc.off)
+					}
+				}
+			}
+		}
+		t, err := gpt.Read(d1, lss, lss)
+		if err != nil {
+			c.Fail(p.id, "-", fmt.Sprintf("the crash state taken as the old disk does not read: %v", err), p.desc)
+			return
+		}
+		oldParts, haveOld = gc.LibPartsStr(t.Partitions), true
+		if t.RecoveredFromBackup {
+			c.Stat("regime.old=crash-state.read-from-backup")
+		} else {
+			c.Stat("regime.old=crash-state.read-from-primary")
+		}
+		if p.degraded && !t.RecoveredFromBackup {
+			p.degraded = false
+		}
+		if p.degraded {
+			p.finding, p.okStages = "gpt-rewrite-over-degraded-primary", map[int]bool{0: true, 1: true}
+		}
 	}
 	// the old state itself, through both readers
-	if cls, _ := readClass(d1, lss, oldParts, "\x00", haveOld); haveOld && cls != 'O' {
+	if cls, _ := readClass(d1, lss, oldParts, "\x00", haveOld); haveOld && cls != 'O' && !(p.pre != nil && cls == 'o') {
 		c.Fail(p.id, "-", "old state does not read as old", p.desc)
 		return
 	}
 	// record the real Write
 	dn := d1.Clone()
 	dn.ResetLog()
-	if err := p.new.ToTable().Write(dn, size); err != nil {
-		c.Fail(p.id, "-", "Write of the new table failed: "+err.Error(), p.desc)
+	newTable := p.new.ToTable()
+	var extra []string
+	if p.rmw {
+		t, err := gpt.Read(dn, lss, lss)
+		if err != nil {
+			c.Fail(p.id, "-", "read-modify-write: the old state does not read: "+err.Error(), p.desc)
+			return
+		}
+		if p.rmwEdit != nil {
+			p.rmwEdit(t)
+		}
+		if p.repair {
+			if err := t.Repair(uint64(size)); err != nil {
+				c.Fail(p.id, "-", "Table.Repair failed: "+err.Error(), p.desc)
+				return
+			}
+			extra = append(extra, "repair=1")
+		}
+		newTable = t
+		extra = append(extra, "rmw=1", "nparts="+gc.LibPartsStr(t.Partitions))
+		if p.nguid {
+			g, _ := gc.ParseGUID(t.GUID)
+			extra = append(extra, "nguid="+hex.EncodeToString(g[:]))
+		}
+	}
+	var werr error
+	if p.viaDisk {
+		dk := &disk.Disk{Backend: dn, Size: size, LogicalBlocksize: int64(lss), PhysicalBlocksize: int64(lss)}
+		werr = dk.Partition(newTable)
+	} else {
+		werr = newTable.Write(dn, size)
+	}
+	if werr != nil {
+		c.Fail(p.id, "-", "Write of the new table failed: "+werr.Error(), p.desc)
 		return
 	}
 	log := dn.Log
@@ -314,12 +431,28 @@ func runPair(c *hx.Ctx, cfg gc.Cfg, p pairSpec) {
 	if p.oldKind == "mbr" {
 		args = append(args, "ombr="+gc.MbrPartsStr(p.oldMbr))
 	}
-	args = append(args, tableArgs("n", &p.new)...)
-	c.Case(p.id, "gptcrash.pair", args...)
+	if !p.rmw {
+		args = append(args, tableArgs("n", &p.new)...)
+	}
+	args = append(args, extra...)
+	if p.pre != nil {
+		args = append(args, fmt.Sprintf("pre=%d:%d", p.pre.k, p.pre.fi))
+		args = append(args, tableArgs("p", &p.pre.table)...)
+	}
+	if p.win != [2]int64{} {
+		args = append(args, fmt.Sprintf("win=%d,%d", p.win[0], p.win[1]))
+	}
+	if p.noRec {
+		args = append(args, "rec=0")
+	}
+	if p.finding == "" {
+		c.Case(p.id, "gptcrash.pair", args...)
+	}
 
 	var gAll, pAll []string
-	states, bad := 0, 0
+	states, bad, unexplained := 0, 0, 0
 	firstBad := ""
+	curStage := 0
 	pmbrWindow := 0
 	collChecked, collBad := 0, 0
 	cur := d1.Clone() // all groups before the current one applied
@@ -335,6 +468,9 @@ func runPair(c *hx.Ctx, cfg gc.Cfg, p pairSpec) {
 			okP := q == 'N' || q == 'n' || (haveOld && (q == 'O' || q == 'o')) || (!haveOld && !haveMbr && q == 'E') || (haveMbr && q == 'M')
 			if !okG {
 				bad++
+				if !(p.okStages[curStage] && g == 'E') {
+					unexplained++
+				}
 				if firstBad == "" {
 					firstBad = fmt.Sprintf("%s: gpt.Read gives class %c (%s)", what, g, gmsg)
 				}
@@ -344,12 +480,16 @@ func runPair(c *hx.Ctx, cfg gc.Cfg, p pairSpec) {
 					pmbrWindow++
 				} else {
 					bad++
+					if !(p.okStages[curStage] && !okG && g == 'E') {
+						unexplained++
+					}
 					if firstBad == "" {
 						firstBad = fmt.Sprintf("%s: partition.Read gives class %c (%s)", what, q, qmsg)
 					}
 				}
 			}
 		}
+		curStage = gi
 		if gi == len(groups) {
 			evalState(cur, "after the complete write")
 		} else {
@@ -393,7 +533,27 @@ func runPair(c *hx.Ctx, cfg gc.Cfg, p pairSpec) {
 	// r= : the model driver classifies every state a second time through the RECORD-level reader of the C09
 	// theorems (toDisk + flatReader, Proofs/GptRefine.lean); it must agree with the real gpt.Read as well;
 	// q= : the same for partition.Read through the record-level partRead (mbrViewFlat); no from-backup flag there
-	c.Impl(p.id, "res=ok", fmt.Sprintf("n=%d", len(groups)), "g="+strings.Join(gAll, ","), "p="+strings.Join(pAll, ","), "r="+strings.Join(gAll, ","), "q="+strings.ToUpper(strings.Join(pAll, ",")))
+	rAll, qAll := strings.Join(gAll, ","), strings.ToUpper(strings.Join(pAll, ","))
+	if p.noRec {
+		rAll, qAll = "-", "-"
+	}
+	if p.finding == "" {
+		c.Impl(p.id, "res=ok", fmt.Sprintf("n=%d", len(groups)), "g="+strings.Join(gAll, ","), "p="+strings.Join(pAll, ","), "r="+rAll, "q="+qAll)
+	}
+	for _, k := range p.regimes {
+		c.Stat(k)
+	}
+	exhaustive := false
+	for _, g := range groups {
+		if len(g.pieces) > 1 && len(g.pieces) <= 12 {
+			exhaustive = true
+		}
+	}
+	if exhaustive {
+		c.Stat("inflight.array=exhaustive-subsets")
+	} else {
+		c.Stat("inflight.array=generating-family")
+	}
 	c.StatN("crash-states", states)
 	c.StatN("hyp.nocrccollision.checked", collChecked)
 	if collBad > 0 {
@@ -402,6 +562,8 @@ func runPair(c *hx.Ctx, cfg gc.Cfg, p pairSpec) {
 	c.Stat("old=" + p.oldKind)
 	c.Stat(fmt.Sprintf("lss=%d", lss))
 	switch {
+	case p.finding != "" && bad > 0 && unexplained == 0:
+		c.Fail(p.id, p.finding, fmt.Sprintf("%d of %d crash states read as an error instead of old or new; first: %s", bad, states, firstBad), p.desc)
 	case bad > 0 && collBad > 0:
 		c.Note("%s: %d crash states fail but the pair violates the NoCrcCollision hypothesis (%d mixtures collide); not counted", p.id, bad, collBad)
 		c.OK(p.id)
